@@ -93,6 +93,16 @@ func runGen(repo, outDir string) error {
 		fmt.Fprintf(&sb, "  (%s, %s)%s\n", coqLitStr(a[0]), coqLitStr(a[1]), sep)
 	}
 	sb.WriteString("].\n")
+	sb.WriteString("\n(* enclosing function, formatting verb and static type of an argument whose text holds a heap address *)\nDefinition address_formats : list (string * string) := [\n")
+	af := s.addressFormats()
+	for i, a := range af {
+		sep := ";"
+		if i == len(af)-1 {
+			sep = ""
+		}
+		fmt.Fprintf(&sb, "  (%s, %s)%s\n", coqLitStr(a[0]), coqLitStr(a[1]), sep)
+	}
+	sb.WriteString("].\n")
 	must(os.WriteFile(filepath.Join(outDir, "Ambient.v"), []byte(sb.String()), 0o644))
 
 	// VisitOrder.v: the writer operations of every Visit function of strict-interface.tmpl, in textual order
